@@ -78,6 +78,9 @@ type Step struct {
 	Kind string `json:"kind"` // plugin | foreach
 	// plugin
 	NoSignal bool    `json:"nosignal,omitempty"` // use the step without a cancel signal
+	// Simple: use the plugin step that declares only `success` and `error` (one regular output, one error
+	// output, no cancel signal): what holds for a step with several regular outputs must hold for it too.
+	Simple bool `json:"simple,omitempty"`
 	In       []Field `json:"in,omitempty"`       // a, s, l, o, mode, dur, on_cancel
 	WaitFor  *Expr   `json:"wait_for,omitempty"`
 	Enabled  *Expr   `json:"enabled,omitempty"`
@@ -411,7 +414,9 @@ func (p *Program) YAML() string {
 			}
 			b.WriteString("      src: " + strconv.Quote(src) + "\n")
 			b.WriteString("      deployment_type: \"sim\"\n")
-			if s.NoSignal {
+			if s.Simple {
+				b.WriteString("    step: work_simple\n")
+			} else if s.NoSignal {
 				b.WriteString("    step: work_nosignal\n")
 			} else {
 				b.WriteString("    step: work\n")
